@@ -5,6 +5,122 @@ ALL = ["C%02d" % i for i in range(1, 21)]
 TB = ("Trusted: Coq 8.16.1 kernel + bytecode VM (vm_compute; no native_compute); the Python harness "
       "(generators, exact float->rational conversion, epgpy drivers); NumPy/CPython. ")
 CLAIMED = {
+ "C04": dict(
+   text="Machine-checked proof (Coq) about CODE-SHAPED functions of the n-D shift back-end: unique_inverse_spec (the lexsort/dedup/inverse-map "
+        "function meets its specification), shiftnd_synth / shiftnd_synth_char (for any dimension, distinct wavenumbers and any character chi, the "
+        "position-space synthesis sum_k chi(k) F+(k) is multiplied by chi(dk) and the Z synthesis is unchanged: exactly the isochromat at that "
+        "position), merge_adds_exact (gridded accumulation preserves amplitude sums exactly), backend_switch, G_is_S_of_wavenumber, "
+        "C_puts_time_on_axis_4; reloc_synth for an order-independent abstraction. PARTIAL: mirror well-formedness covers the F columns only, the "
+        "gridded synthesis identity assumes the attached wavenumber has the right character value, back-end agreement is a vm_compute-checked family "
+        "(125 programs), composition with synth_run over whole programs is not stated.",
+   design_ref="DESIGN.md section 4 C04",
+   note=TB + "Model/ShiftND.v hand-written; tied to shift.py by exact dyadic correspondence of shiftnd / unique_1d / shiftmerge / shiftprune / get_shift_method; "
+        "random testing against independently simulated isochromats at random positions / off-resonances and across back-ends (incl. mid-sequence switches) is supporting "
+        "evidence. Axioms: none.",
+   technique="Coq proof (list/permutation proofs on code-shaped sort/unique/relocate) + exact correspondence + Bloch-isochromat oracle"),
+ "C05": dict(
+   text="Machine-checked proof (Coq). The b-matrix and attenuation formulas are TRANSLATED from diffusion.py on every run (symbolic execution in 1-3 dimensions, "
+        "all branches): bmatrix_is_integral (is_RInt of k_i(t) k_j(t) over the linear ramp, unit factors ms->s and rad/m->rad/mm explicit), bmatrix_const, "
+        "bmatrix_even, bmatrix_symmetric, iso_equals_tensor, k0_unattenuated, att_le_1 for any positive semi-definite tensor; D_apply_view / D_apply_wf; and the "
+        "PATHWAY theorem pathsum: for every list of [RF; shift; D] blocks and every well-formed initial state, each coefficient equals the sum over all 3^n coherence "
+        "pathways of (product of RF entries) x (product of attenuations met), generic in scalars and attenuation functions, instantiated at C with exp(-b:D) from the "
+        "generated formulas (phys_pathway_attenuation).",
+   design_ref="DESIGN.md section 4 C05",
+   note=TB + "Translator translator/diffusion_tables.py validated by the Interval tie; pathsum is for the 1-D array model with integer shifts; n-D / gridded states and "
+        "tensor D over many states are tied by correspondence (b-matrices 1e-12, states 1e-9) and an independent 3^n pathway oracle with numerical quadrature (testing). "
+        "Axioms: classical reals, funext, classic for the analytic theorems; none for the algebraic ones.",
+   technique="Coq proof (RInt/auto_derive on translated formulas; induction over block sequences) + translator + correspondence + pathway oracle"),
+ "C06": dict(
+   text="Machine-checked proof (Coq), PARTIAL by design: the matrix exponential of exchange.py is LAPACK (eig/eigh/solve) and is a Section variable `expm` with "
+        "hypotheses H0 (E(0)=I), Hsemi, Hder (+Hext, Hdiag for zero exchange). Under them: X_solves_ode (Bloch-McConnell for F+, F-, Z of every compartment and phase "
+        "state), X_initial, X_semigroup, X_zero_exchange (= E_op per compartment, generated coefficients), X_conserves_total. Without hypotheses: X_fixed_point, guard "
+        "theorems (non-square / column sums / non-conserving K rejected), x_apply_entry, exchange_matrix_ok / balance, and for TWO compartments with a scalar rate the "
+        "closed form of exp(-Kt) is proved to satisfy H0/Hsemi/Hder, so that case is unconditional.",
+   design_ref="DESIGN.md section 4 C06",
+   note=TB + "Oracle hypotheses on exchange.expm are VALIDATED numerically (degree-30 Taylor in Fractions, semigroup, derivative, closed form) for generators with a "
+        "well-conditioned eigenbasis, not proved; Model/Exchange.v tied by exact dyadic correspondence with op.mat injected and with exchange.expm temporarily replaced by the "
+        "identity inside the harness (run-time monkeypatch, no source change); batched kinetic-matrix layouts and defective generators are known findings. Axioms: classical reals, funext, classic.",
+   technique="Coq proof under oracle hypotheses (+ unconditional two-pool closed form) + exact correspondence + numerical validation of the oracle"),
+ "C07": dict(
+   text="Machine-checked proof (Coq) on the shape algebra of epgpy modelled faithfully (append-aligned expand_shapes / broadcastable / broadcast_shapes, numpy's "
+        "right-aligned broadcasting, the new-axis insertion of scalar_prod / matrix_prod incl. the in-place matmul with the state axis as core dimension and its "
+        "ValueError fall-back, prepare, getshape, simulate's output shape): broadcast_shapes_spec, broadcastable_iff, prod_pointwise and matrix_prod_inplace_pointwise "
+        "(for ALL ranks |A| <= |B| numpy's alignment of the axis-inserted array reads exactly the append-aligned element, and exactly when the in-place branch is taken), "
+        "vectorised_is_stack (for every program of the 1-D model the vectorised run equals, at every grid index, the scalar run with that index's coefficients), "
+        "output_shape, incompatible_raises.",
+   design_ref="DESIGN.md section 4 C07, section 9 items 8 and 14",
+   note=TB + "Model/Vector.v hand-written, tied by exact correspondence of shapes, raise/no-raise and elements read (index-encoded arrays); Jacobians/Hessians, real operators, "
+        "axes= and batched S are covered by the vectorised-vs-stack-of-scalar-runs oracle only (testing); one known finding (batched S with different shifts per index). Axioms: none.",
+   technique="Coq proof (induction over ranks and programs) + exact correspondence + scalar-stack oracle"),
+ "C09": dict(
+   text="Machine-checked proof (Coq), PARTIAL by design: memory aliasing, hidden state and the interpreter's hash seed cannot be exhibited by a Gallina model. Proved for the "
+        "pure API model (append-only store of immutable values; calls apply/copy/mul/simulate/acquire): store_monotone, nonsm_immutable, history_independent, "
+        "reuse_equals_fresh, simulate_idempotent, probe_snapshot / simulate_snapshot, inplace_equals_outofplace (with a refuting witness for non-differentiable operators on "
+        "states with partials). That the IMPLEMENTATION behaves like this pure model is established by the history correspondence only.",
+   design_ref="DESIGN.md section 4 C09, section 9 items 2, 3, 5, 12",
+   note=TB + "History correspondence (random testing): byte-level snapshots of every live object before/after every call, shared-object vs deep-copy differential "
+        "execution, np.shares_memory, repeated identical calls, PYTHONHASHSEED subprocess sweep (6 quick / 48 thorough), exact vm_compute evaluation of synthetic histories. "
+        "Two known findings (Probe.__call__ returns its input; out-of-place non-differentiable operators drop partials). Axioms: none.",
+   technique="Coq proof on a pure store model + history correspondence with byte-level snapshots and hash-seed sweep"),
+ "C10": dict(
+   text="Machine-checked proof (Coq): simulate_nested_eq_flat / regrouping_immaterial (any nesting of lists and any '*' grouping gives the state of the flat sequence, by "
+        "induction over the nested structure), multi_duration, multi_nshift, and combine_apply_states (whenever '@' accepts two operands -- scalar@scalar, matrix@matrix, "
+        "matrix@scalar, scalar@matrix, with or without recovery terms -- the combined arrays act on any state matrix exactly as the operands applied in order). The clause on "
+        "first/second-order partials of '@' is NOT a theorem: it is checked on the implementation against sequential application (testing) and is violated for alias / "
+        "coefficient-map declarations and automatic second order (two known findings).",
+   design_ref="DESIGN.md section 4 C10, section 9 item 15",
+   note=TB + "Model/Combine.v tied to opscalar/opmatrix _combine by exact comparison of the combined arrays for chains of 2-4 operands in either association; shape/duration of "
+        "real combined operators with 0-3 batch axes by oracle. Axioms: none.",
+   technique="Coq proof (induction over nested sequences; ring identities per phase state) + exact correspondence + implementation-side oracle"),
+ "C12": dict(
+   text="Machine-checked proof (Coq) on Model/Run.v (simulate_simple transcribed: apply in place, tic += duration, at each probe occurrence record (pb or op).acquire(sm, "
+        "post=op.post), transposition, single-probe flattening; get_adc_times; modify/default_modifier with memo, att, P vs E, defaults): probe_count_order (one row per probe "
+        "occurrence, the quantity of the state at that point, snapshot semantics), times_cumsum, override_keeps_when_and_post, adc_phase, weights_reduce, reduce_only, "
+        "multi_duration, modify_flat / modify_equiv / modify_times (modify = inserting an evolution after every operator with positive duration, timing unchanged), for every sequence.",
+   design_ref="DESIGN.md section 4 C12",
+   note=TB + "Model tied by exact dyadic correspondence of values, times, get_adc_times and MultiOperator.duration (tolerance 1e-13 only for the float phasor, 1e-12 for exp-based "
+        "modify numerics); coefficients of T/E/P are abstract constructors in the model; array durations, expand and n-D batches are checked Python-side only. One known finding "
+        "(explicit MultiOperator duration ignored by timing). Axioms: none.",
+   technique="Coq proof (induction over sequences) + exact correspondence + Interval for the phasor"),
+ "C14": dict(
+   text="Machine-checked proof (Coq) at K = C with the TRANSLATED operator arrays: norm_code_eq (what get_norm squares equals the weighted norm for well-formed states), "
+        "T / Phi / P state isometries (any parameters, any state), S_isometry (any untruncated shift), E_contracts_deviation, spoiler_contracts, D_contracts (factors in [0,1], "
+        "linked to the generated 1-D diffusion formulas), signal_le_PD_run and signal_le_PD (with T2 <= 2 T1 the invariant norm^2 <= PD^2 is kept by every operator of every "
+        "program, hence |F0| <= PD), and Parseval norm_is_rms / norm_is_rms_of_isochromats (the state norm is the RMS magnetisation length of the isochromat ensemble of C01).",
+   design_ref="DESIGN.md section 4 C14",
+   note=TB + "Proved for the 1-D model (Model/Ops.v) and the d_apply diffusion structure; n-D shifts, batching and the float get_norm are tied by a Coq-evaluated norm "
+        "correspondence and random oracles (testing). Translator validated by the Interval tie. Axioms: classical reals, funext, classic.",
+   technique="Coq proof (nsatz/nra per state, sums over integer windows, DFT orthogonality, invariant induction over programs) + translator + oracles"),
+ "C15": dict(
+   text="Machine-checked proof (Coq, Coquelicot): box_is_average (for every k and D<>0 the voxel average of cos/sin(k u) equals cos/sin(k x) * numpy-sinc(k D/(2 pi)), incl. k=0), "
+        "box_probe_is_average_1d (the 'box' value is the integral of the 'point' values over the voxel), point_is_isochromat, modulation_imag_is_offres / "
+        "time_shift_is_precession, modulation_real, mask_error_bound, weights_scale_output, reduce_only_sums, args_equal_system, acquire_keeps_options / repeated_use_stable. "
+        "PARTIAL in 2-3 dimensions: the iterated average is proved, Fubini is not.",
+   design_ref="DESIGN.md section 4 C15, section 9 item 2",
+   note=TB + "Model/Imaging.v hand-written, tied to utils.imaging / Imaging._acquire by an ast check of 7 source expressions and by Interval evaluation of the model on the "
+        "exact state-matrix contents (F, k, t taken from the implementation) against simulate(probe=Imaging(...)); box voxel vs 2001 independently simulated isochromats and "
+        "off-resonance equivalence are oracles (testing). One known finding (System() vs argument alignment of weights/modulation arrays). Axioms: classical reals, funext, classic.",
+   technique="Coq proof (is_RInt via antiderivatives, list/C algebra) + Interval correspondence + isochromat oracle"),
+ "C17": dict(
+   text="Machine-checked proof (Coq) over any field with conjugation: crlb_formula (= sum_a W_a B_aa for the inverse B of Re(J^H J)/sigma2), d_inverse and d_gram in a "
+        "differential ring, crlb_grad_exact (the code's einsum expression -- subscripts EXTRACTED from stats.py and matched against a fixed menu -- equals the derivative of the "
+        "cost), crlb_log (real level), crlb_split_diag, confint_formula / confint_cints, adjugate inverse correct for 1x1/2x2, inv_check_sound; the 108 Student-t table literals "
+        "are proved on every run with Interval's verified integration to 1e-8. numpy.linalg.inv is a parameter with the two-sided inverse hypothesis, checked on every executed case.",
+   design_ref="DESIGN.md section 4 C17, section 9 item 7",
+   note=TB + "Translator translator/stats_tables.py (einsum menu, glue statements, TSTAT literals); exact-rational vm_compute correspondence of crlb / crlb_split / confint over "
+        "batch shapes (tolerance 1e-9 on well-conditioned quantities); Sequence.crlb/confint wrappers, sqrt and log10 are tied by correspondence / squares / Interval only; t-table "
+        "proofs use Interval's primitive 63-bit integers. Axioms: none for the algebraic theorems; classical reals + funext for crlb_log and the t table.",
+   technique="Coq proof (generic-field matrix algebra, differential ring) + translator + exact correspondence + Interval integrals"),
+ "C18": dict(
+   text="Machine-checked proof (Coq) over the TRANSLATED T_op / Phi_op / E_op / P_op: pulse_structure and pulse_is_product (the operator list of a shaped pulse is the "
+        "ordered product of T(180 |v_i| rf, arg v_i), each followed by its evolution share), pulse_duration, phase_offset_identity / phase_offset_product / "
+        "phase_offset_is_sample_rotation, same_axis_angles_add, const_phase_single_rotation / target_angle, estimate_alpha_of_rf and estimate_rf_of_alpha on the CLOSED interval "
+        "[0,180], estimate_alpha_zero_rf, encode_phase_is_modify, run_is_statewise (tie to the C01 semantics).",
+   design_ref="DESIGN.md section 4 C18, section 9 item 9",
+   note=TB + "Model/RFPulse.v tied to rfpulse.py by exact-rational correspondence of operator lists (1e-12) and effect checks (1e-10); the scipy branch of estimate_rf and att= "
+        "are out of scope (scipy absent). Axioms: classical reals, funext, classic.",
+   technique="Coq proof (matrix identities on translated rotations, real analysis) + exact correspondence + Interval"),
+
  "C13": dict(
    text="Machine-checked proof (Coq), PARTIAL: the 1-D truncation clauses are proved on the generic model -- trunc_cap (no state beyond the cap), "
         "trunc_horizon (for every program, steps of any size and sign, the truncated run equals the untruncated one on all phase states "
@@ -109,7 +225,7 @@ CLAIMED = {
    note=TB + "Modelled rather than verified: Model/State.v, Model/Ops.v (un-batched 1-D operators); n-D/float shifts, D and X are covered by the wf predicate on observed arrays only. Axioms: none (closed under the global context).",
    technique="Coq proof by induction over programs + exact model/implementation correspondence"),
 }
-REASON_TODO = "not yet built in this round (planned, see DESIGN.md section 4); no check is claimed"
+REASON_TODO = "not claimed"
 
 def main():
     checks = []
